@@ -22,7 +22,7 @@ When is that true of a search the driver took off the queue at read position `p0
   F13), or whose receiver was dropped before a further frame came (the driver then removes the
   entry): frames under its ID that the driver reads afterwards are dropped as unmatched
   (`C01_unmatched_inert`) but are counted by `sentFrom`.  `Served` is exactly the hypothesis that
-  excludes these; `not_complete_example` is a witness.
+  excludes these; `C10_lost_search_incomplete` (Props/C10.lean) is a witness.
 -/
 import Ldap3V.Lemmas.ConnCompleteEnd
 import Ldap3V.Lemmas.ConnCompleteCaller
